@@ -2,9 +2,16 @@
   GMModel.PyStr — the handful of CPython string / text-file primitives used by the `.gro`
   reader and writer (`gaddlemaps/parsers/__init__.py`), modelled exactly (no `Float`):
 
-  * text = list of character codes (`Nat`, as a Python `str` is a sequence of code points); files are
-    ASCII, so one code = one byte (the harness never sends codes ≥ 128 or `\r` to the file ops and the
-    driver converts from/to `UInt8`),
+  * text = list of BYTES (`Nat` codes < 256; the driver converts from/to `UInt8`): `GroFile` opens its files
+    in text mode without `encoding=`, so what reaches the file is the text ENCODED in the interpreter's
+    default encoding (UTF-8 here; recorded in the evidence), and `tell()` / `seek()` cookies are byte
+    offsets.  Every string the model receives (the title) is therefore its encoded byte sequence — a
+    non-ASCII character is 2–4 list elements — and every offset is a byte offset; this is exact for
+    encodings in which `\n` is the single byte 0x0A and never part of a multi-byte sequence (UTF-8, ASCII,
+    ISO-8859-x, cp125x).  The fixed-width fields (numbers, residue/atom names) are ASCII: there one
+    character = one byte, which is what `'{:5s}'` padding (by characters) silently assumes — names with
+    non-ASCII characters are outside the model (and break the real writer's equal-line-length layout).
+    `\r` (universal newlines) is not modelled,
   * `'{:wd}'`, `'{:<ws}'`/`'{:ws}'`, `'{:>ws}'`, `'{:w.df}'` (correctly rounded decimal of the exact binary
     double, round-half-even on the exact value — what `float.__format__` does through `dtoa` mode 3),
   * `int()` / `float()` acceptance grammars on ASCII text (anything with `_` or a non-ASCII byte is the
@@ -16,7 +23,7 @@
 
 namespace PyStr
 
-/- A character code is a plain `Nat` (ASCII: = the byte in the file); text is `List Nat`. -/
+/- A byte is a plain `Nat`; text (as encoded in the file) is `List Nat`. -/
 
 /-- exception classes of the modelled code (`IOError` = `OSError`); `unmodelled` is NOT a Python
     exception: it marks inputs outside the modelled grammar (reported as skipped by the harness). -/
